@@ -19,6 +19,13 @@
     orders and nested (a leak shows up as the other arm's value).
 (iv) process stability: a test with 25-60 counterexamples is run 12-20 times in one forked process;
     the process must survive and every repetition must give the same result.
+(v) collector schedule: 3-6 contracts of the C03 grammar are verified back to back in one forked
+    process twice: as is, and with the cyclic garbage collector moved onto the solver threads (the
+    automatic collector is switched off and gc.collect() runs on the solver thread at the start of
+    the first assertion query of every test, while the main thread keeps executing paths; Python
+    runs the collector on whichever thread happens to allocate, so this is a schedule halmos must
+    tolerate).  The process
+    must survive and every PASS/FAIL verdict must be the same in both schedules.
 """
 
 from __future__ import annotations
@@ -39,20 +46,23 @@ RULE = (
     "case kinds: (tests) contract with setUp state and 3-5 state-checking/mutating tests run alone, in two orders, repeated, "
     "under two uid generators; (inv) C15-grammar contract with two invariants in five run lists; (fork) program with a fork whose "
     "arms write different values to shared locations / concretise the branched-on term, checked path by path against the "
-    "reference EVM. Non-trivial = (tests) a state-mutating test precedes a test that reads the same location; (inv) both "
-    "invariants explored to depth >= 1; (fork) >= 2 reported paths; distinct by content."
+    "reference EVM; (gcthread) 3-6 C03-grammar contracts verified back to back in one process, normally and with the cyclic "
+    "collector run on the solver threads. Non-trivial = (tests) a state-mutating test precedes a test that reads the same location; (inv) both "
+    "invariants explored to depth >= 1; (fork) >= 2 reported paths; (gcthread) >= 1 assertion query solved after an "
+    "earlier contract left garbage; distinct by content."
 )
 ASSUMPTIONS = [
     "counterexample values are compared exactly: every failing guard pins all arguments of the test by equalities, so the model is unique for the variables compared (only p_* argument symbols are compared by value)",
     "--early-exit is not generated for invariant tests (documented in get_frontier: a partially computed frontier may be reused)",
     "the branching solver runs without its (default 1 ms) time limit, so that path counts do not depend on machine load",
     "warnings are not part of the compared result (halmos de-duplicates some of them per process by design)",
+    "gcthread: only verdicts that are PASS or FAIL in both schedules are compared (a solver time limit is not a verdict); a run that exceeds 600 s is excluded, not reported",
 ]
 WATCHDOG_S = {"quick": 2400, "thorough": 10800}
 
 MANIFEST = {
-    "technique": "metamorphic testing over run histories: each generated test is run alone, after other state-mutating tests in several orders, repeatedly, and under different fresh-symbol suffix generators in one process, comparing normalised results; differential testing of sibling paths of generated forking programs against a reference EVM",
-    "text": "Generated contracts whose setUp builds constant and symbolic state and whose tests check and then mutate that state (storage, mappings, transient storage, balances, timestamp) are run through run_contract with each test alone, in permuted and repeated run lists in one process, and with uid() rebound to different suffix generators: exit code, counterexample count, path counts and normalised counterexamples of every test must be identical in all contexts; the same is done for pairs of invariant tests sharing the frontier cache; forking programs whose arms write different values to the same locations or need the branched-on term as a concrete value are explored by SEVM.run and every sibling path is compared with the reference EVM.",
+    "technique": "metamorphic testing over run histories: each generated test is run alone, after other state-mutating tests in several orders, repeatedly, and under different fresh-symbol suffix generators in one process, comparing normalised results; differential testing of sibling paths of generated forking programs against a reference EVM; schedule injection (cyclic collector moved onto the solver threads) for process stability",
+    "text": "Generated contracts whose setUp builds constant and symbolic state and whose tests check and then mutate that state (storage, mappings, transient storage, balances, timestamp) are run through run_contract with each test alone, in permuted and repeated run lists in one process, and with uid() rebound to different suffix generators: exit code, counterexample count, path counts and normalised counterexamples of every test must be identical in all contexts; the same is done for pairs of invariant tests sharing the frontier cache; forking programs whose arms write different values to the same locations or need the branched-on term as a concrete value are explored by SEVM.run and every sibling path is compared with the reference EVM; process stability is checked by running many-counterexample tests repeatedly in one forked process and by verifying several generated contracts back to back under an injected schedule in which Python's cyclic garbage collector runs on the solver threads (the process must survive and give the same verdicts).",
     "note": "trusts the reference EVM and symeval for the path-level part; the test-level part needs no oracle beyond equality of normalised results",
 }
 
@@ -450,6 +460,82 @@ def run_stress_case(case, acc=None):
     return fails
 
 
+# ---------------------------------------------------------------- the cyclic collector running on solver threads
+
+def gcthread_once(cases, on_solver_thread):
+    """verify the contracts of `cases` (C03 grammar) back to back in this process.  With
+    on_solver_thread the automatic collector is off and a full collection runs on the solver thread at
+    the start of the first assertion query of every test: the Execs, Paths and z3 Solvers that the
+    earlier tests left in reference cycles are then released there while the main thread goes on
+    using z3."""
+    import gc
+
+    import halmos.__main__ as M
+    from props import c03_pass as c03
+
+    orig = M.solve_end_to_end
+
+    seen = []
+
+    def collecting(path_ctx):
+        # first query of a test: everything the previous tests left behind is released here
+        if not seen or seen[-1] is not path_ctx.solving_ctx:
+            seen.append(path_ctx.solving_ctx)
+            gc.collect()
+        return orig(path_ctx)
+
+    if on_solver_thread:
+        gc.disable()
+        M.solve_end_to_end = collecting
+    try:
+        out = []
+        for case in cases:
+            cj, _, _ = c03.build(case)
+            a = e2e.mk_args(solver_command=e2e.YICES if case["solver"] == "yices" else e2e.Z3, storage_layout=case["layout"],
+                            panic_error_codes=c03.parse_codes(case["codes"]), solver_timeout_assertion=3.0)
+            r = e2e.run(cj, args=a, capture=False)  # nothing but halmos itself holds the Execs
+            out.append(sorted((x.name, x.exitcode) for x in r.results))
+        return out
+    finally:
+        M.solve_end_to_end = orig
+        if on_solver_thread:
+            gc.enable()
+
+
+def run_gcthread_case(case, acc=None):
+    from vfw.util import Hang, forked
+
+    fails = []
+    runs = {}
+    for mode in (False, True):
+        try:
+            runs[mode] = forked(lambda m=mode: gcthread_once(case["cases"], m), 600)
+        except Hang:
+            if acc is not None:
+                acc.exclude("gcthread-run-exceeded-600s")
+        except RuntimeError as e:
+            if "child died" in str(e):
+                what = "with the cyclic collector running on the solver threads" if mode else "(default collector schedule)"
+                fails.append((["process-died-gc" if mode else "process-died"], f"the process verifying {len(case['cases'])} contracts back to back {what} died without a result"))
+            else:
+                fails.append((["run-raise"], str(e)[:300]))
+    queries = 0
+    if len(runs) == 2:
+        for i, (r0, r1) in enumerate(zip(runs[False], runs[True])):
+            d0, d1 = dict(r0), dict(r1)
+            if set(d0) != set(d1):
+                fails.append((["gc-schedule-changes-result", "tests"], f"contract {i}: {sorted(d0)} vs {sorted(d1)}"))
+                continue
+            for name in d0:
+                if d0[name] in (0, 1) and d1[name] in (0, 1) and d0[name] != d1[name]:
+                    fails.append((["gc-schedule-changes-result", "verdict"], f"contract {i} {name}: exit code {d0[name]} normally, {d1[name]} with the collector on the solver threads"))
+            if i >= 1:
+                queries += sum(1 for v in d1.values() if v == 1)
+    if acc is not None:
+        acc.case(case, queries >= 1, klass=["gcthread", f"contracts:{len(case['cases'])}"])
+    return fails
+
+
 # ---------------------------------------------------------------- generators for the test-level part
 
 def loc_st():
@@ -510,9 +596,15 @@ def inv_case_st():
     return st.one_of(c15.case_st(), c15.confluent_st(), c15.permute_st(), c15.split_st()).map(two)
 
 
+def gcthread_st():
+    from props import c03_pass as c03
+
+    return st.builds(lambda cases: {"kind": "gcthread", "cases": cases}, st.lists(c03.case_st(), min_size=3, max_size=6))
+
+
 def shards(tier):
     n = 14 if tier == "quick" else 200
-    return [{"mode": "tests", "n": n} for _ in range(9)] + [{"mode": "inv", "n": n} for _ in range(3)] + [{"mode": "fork", "n": 12 * n} for _ in range(2)] + [{"mode": "stress", "n": 6 if tier == "quick" else 60} for _ in range(2)]
+    return [{"mode": "tests", "n": n} for _ in range(9)] + [{"mode": "inv", "n": n} for _ in range(3)] + [{"mode": "fork", "n": 12 * n} for _ in range(2)] + [{"mode": "stress", "n": 6 if tier == "quick" else 60} for _ in range(2)] + [{"mode": "gcthread", "n": 8 if tier == "quick" else 150} for _ in range(2)]
 
 
 def run_case(case, acc=None):
@@ -523,6 +615,8 @@ def run_case(case, acc=None):
         return run_inv_case(case, acc)
     if k == "stress":
         return run_stress_case(case, acc)
+    if k == "gcthread":
+        return run_gcthread_case(case, acc)
     return run_fork_case(case, acc)
 
 
@@ -534,7 +628,7 @@ def run_shard(spec, seed, tier):
             acc.fail(b, case, d)
 
     stress_st = st.builds(lambda s, r, k: {"kind": "stress", "sites": s, "repeats": r, "k": k}, st.sampled_from([40, 25, 60]), st.sampled_from([12, 20]), st.integers(0, 1 << 20))
-    strat = {"tests": tests_case_st, "inv": inv_case_st, "fork": fork_st, "stress": lambda: stress_st}[spec["mode"]]()
+    strat = {"tests": tests_case_st, "inv": inv_case_st, "fork": fork_st, "stress": lambda: stress_st, "gcthread": gcthread_st}[spec["mode"]]()
     run_cases(strat, body, spec["n"], seed)
     return acc
 
